@@ -325,18 +325,30 @@ func opsUpdate(o ref.Opts) {
 
 // ---------------- index catalog ----------------
 
-func opsIndex(o ref.Opts) {
+func opsIndex(o ref.Opts) { opsIndexFields(o, "x", "xy") }
+
+// opsIndexFields: f1/f2 are a prefix pair (x, xy) or a dotted pair (n, n.a).
+func opsIndexFields(o ref.Opts, f1, f2 string) {
 	opVal = o
+	dotted := f2 == f1+".a"
 	e := openEnv()
-	a := buildState(e, stateCfg{nDocs: 1 + nd.Choice("ndocs", 2), idxField: [][]string{{}, {"x"}, {"xy"}, {"x", "xy"}}[nd.Choice("indexes", 4)], sibling: true,
+	a := buildState(e, stateCfg{nDocs: 1 + nd.Choice("ndocs", 2), idxField: [][]string{{}, {f1}, {f2}, {f1, f2}}[nd.Choice("indexes", 4)], sibling: true,
 		fields: func(i int) map[string]interface{} {
-			fs := genFields("d", opVal, "x")
-			fs["xy"] = []string{"p", "q"}[i%2]
+			if dotted {
+				// n is an object holding a (so the index on n keys whole objects, the one on n.a their member),
+				// or a plain value (then n.a is absent)
+				if nd.Choice("d.n.object", 2) == 1 {
+					return map[string]interface{}{f1: map[string]interface{}{"a": []string{"p", "q"}[i%2], "b": ref.Value("d.nb", opVal)}}
+				}
+				return genFields("d", opVal, f1)
+			}
+			fs := genFields("d", opVal, f1)
+			fs[f2] = []string{"p", "q"}[i%2]
 			return fs
 		}})
 	c := a.coll("c")
 	pre := snapshot(e.ms)
-	f := []string{"x", "xy"}[nd.Choice("field", 2)]
+	f := []string{f1, f2}[nd.Choice("field", 2)]
 	var err error
 	if nd.Choice("op", 2) == 0 {
 		err = e.db.CreateIndex("c", f)
@@ -364,7 +376,7 @@ func opsIndex(o ref.Opts) {
 		}
 	}
 	quiescent("C04.index", e.ms)
-	for _, g := range []string{"x", "xy"} {
+	for _, g := range []string{f1, f2} {
 		has, herr := e.db.HasIndex("c", g)
 		nd.Assert("C14.hasindex", herr == nil && has == c.hasIndex(g))
 	}
@@ -375,13 +387,13 @@ func opsIndex(o ref.Opts) {
 	}
 	audit("C06.index", e.ms, a)
 	// results through the sibling index (sort-only use and filtered use)
-	other := "xy"
-	if f == "xy" {
-		other = "x"
+	other := f2
+	if f == f2 {
+		other = f1
 	}
 	docs, qerr := e.db.FindAll(query.NewQuery("c").Sort(query.SortOption{Field: other, Direction: 1}))
 	nd.Assert("C14.sibling-sort", qerr == nil && sameDocSet(docs, c.docs))
-	crit := &ref.Crit{Op: ref.OpGtEq, Field: "xy", Val: "p"}
+	crit := &ref.Crit{Op: ref.OpGtEq, Field: f2, Val: ref.String("sibling.lit", 1)} // symbolic literal: all byte values
 	docs, qerr = e.db.FindAll(query.NewQuery("c").Where(buildCrit(crit)))
 	nd.Assert("C14.sibling-filter", qerr == nil && sameDocSet(docs, c.matching(crit)))
 	nd.Reach("end")
@@ -410,3 +422,6 @@ func H_ops_index() { opsIndex(opValConc) }
 
 //verif:harness props=C14,C06 tier=thorough bounds="as H_ops_index with symbolic float64 field values"
 func H_ops_index_sym() { opsIndex(opValSym) }
+
+//verif:harness props=C14,C06,C18 tier=quick bounds="as H_ops_index for the dotted pair n / n.a: documents whose n is an object {a: string, b: nil/float} or a plain value; indexes on n (keys whole objects) and on n.a (keys the member); create/drop either, the other keeps serving exact results; audit"
+func H_ops_index_dotted() { opsIndexFields(opValConc, "n", "n.a") }
